@@ -1350,7 +1350,7 @@ func ThinTarget(p *Prog, fn *ssa.Function) (*ssa.Function, *ssa.Call) {
 				}
 				ok = false
 			}
-		case *ssa.UnOp, *ssa.FieldAddr, *ssa.Field, *ssa.Extract, *ssa.DebugRef, *ssa.MakeInterface, *ssa.ChangeType, *ssa.Alloc, *ssa.Store, *ssa.IndexAddr, *ssa.Slice, *ssa.MakeChan, *ssa.MakeMap, *ssa.MakeSlice:
+		case *ssa.UnOp, *ssa.FieldAddr, *ssa.Field, *ssa.Extract, *ssa.DebugRef, *ssa.MakeInterface, *ssa.ChangeType, *ssa.Alloc, *ssa.Store, *ssa.IndexAddr, *ssa.Slice, *ssa.MakeChan, *ssa.MakeMap, *ssa.MakeSlice, *ssa.MakeClosure:
 		default:
 			ok = false
 		}
